@@ -396,6 +396,13 @@ impl TextResourceBuilder {
                     serde_path_to_error::deserialize(deserializer);
                 match result {
                     Ok(mut builder) => {
+                        if builder.text.is_none() {
+                            //the included file must hold the text itself, otherwise we would include the same file again (endlessly)
+                            return Err(StamError::DeserializationError(format!(
+                                "Included resource file {} does not contain any text",
+                                filename
+                            )));
+                        }
                         //recursion step into the new builder:
                         if self.id.is_some() && builder.id.is_none() {
                             builder.id = self.id;
